@@ -1141,7 +1141,9 @@ func decodeChildren(run *core.Run) {
 					if !one.done {
 						viol(run, "decoder-hang type="+targetOfCase(hr.Case), "^"+regexp.QuoteMeta(hr.Case)+"$", map[string]any{"input_hex": input, "note": fmt.Sprintf("no return within %d s in the shard and within %d s alone", envInt("C19_HANG_SEC", 30), envInt("C19_HANG_CONFIRM_SEC", 180))})
 					} else {
-						run.Inconclusive("watchdog fired for %s but the input returned when run alone", hr.Case)
+						// a stall of the loaded machine, not of the decoder: the same input returns when it runs alone (and it was
+						// judged there); counted, not a verdict
+						run.Count("watchdog_fired_but_input_returned_when_run_alone", 1)
 					}
 					resume = hr.Case
 					continue
